@@ -280,6 +280,21 @@ func c20Singles() []c20Spec {
 	add(`BEGIN { print "before"; printf("%99999999999999999999s", "x"); print "after" }`, "REFUSED")
 	add(`BEGIN { print "before"; printf("%4000s|%-3000v|", "x", 1); print "" }`, "before\n"+strings.Repeat(" ", 3999)+"x|1"+strings.Repeat(" ", 2999)+"|\n")
 	add(`BEGIN { print "before"; a = []; for (i = 0; i < 1000; i++) a.push(i); print a.length(), a[999]; print r(1000) } function r(n) { if (n <= 0) return 0; return 1 + r(n - 1) }`, "before\n1000 999\n1000\n")
+	// a width beyond the maximum in the second / third directive, after directives within it
+	for _, f := range []string{`"%%-8s %%%ds|"`, `"%%3f%%%dv"`, `"%%5s%%-%ds"`, `"%%s %%s %%0%df"`} {
+		for _, w := range []string{"65537", "70000", "99999999999"} {
+			var n int
+			fmt.Sscan(w, &n)
+			add(`BEGIN { print "before"; printf(`+fmt.Sprintf(f, n)+`, "a", "b", 1.5); print "after" }`, "REFUSED")
+		}
+	}
+	add(`BEGIN { print "before"; printf("%-8s %65536s|", "a", "b"); print "" }`, "before\na        "+strings.Repeat(" ", 65535)+"b|\n")
+	// everything up to the limit works every time: deep recursion once per element, many elements
+	rec := `function r(n) { if (n <= 0) return 0; return 1 + r(n - 1) } function m(n) { return match (n) { 0 => 0, k => 1 + m(k - 1) } } `
+	elems := "[" + strings.TrimSuffix(strings.Repeat("1,", 12), ",") + "]"
+	add(rec+`{ print "before"; print r(1000), r(3000), m(1000) }`+"\x02"+elems, strings.Repeat("before\n1000 3000 1000\n", 12))
+	many := "[" + strings.TrimSuffix(strings.Repeat("1,", 400), ",") + "]"
+	add(rec+`{ c = c + m(100) + r(200) } END { print "before"; print c }`+"\x02"+many, "before\n120000\n")
 	return out
 }
 
@@ -294,7 +309,11 @@ func c20Single(c *fw.Ctx, s c20Spec) *fw.Violation {
 		want = strings.TrimSuffix(want, ":input2")
 		input = `{"xs":[1,2,3]}`
 	}
-	so, se, ex := c20Exec(s.Prog, input)
+	prog := s.Prog
+	if i := strings.Index(prog, "\x02"); i >= 0 {
+		prog, input = prog[:i], prog[i+1:] // the input travels with the program
+	}
+	so, se, ex := c20Exec(prog, input)
 	c.Evals++
 	c.Transitions++
 	alts := strings.Split(want, "\x01")
